@@ -569,8 +569,9 @@ def filled(v, t):
     if isinstance(t, InputObjectType) and isinstance(v, dict):
         out = {}
         for f in t.fields:
-            if f.name in v:
-                out[f.python_name] = filled(v[f.name], f.type)
+            key = f.python_name if f.python_name in v else f.name     # declared defaults are keyed by Python names
+            if key in v:
+                out[f.python_name] = filled(v[key], f.type)
             elif f.has_default_value:
                 out[f.python_name] = f.default_value
         return out
@@ -647,8 +648,9 @@ def shrink_default(live_type, value):
                         break
         elif isinstance(t, InputObjectType) and isinstance(v, dict):
             for f in t.fields:
-                if f.name in v and fails(f.type, v[f.name]):
-                    t, v, progress = f.type, v[f.name], True
+                k = f.python_name if f.python_name in v else f.name
+                if k in v and fails(f.type, v[k]):
+                    t, v, progress = f.type, v[k], True
                     break
     return t, v
 
